@@ -143,6 +143,24 @@ def run_units(case, rng, cls):
                 # and the variables left by solvePDE must satisfy their interior equations - in B with K * (values of A) as well
                 tA, tB = terms(phiA, mA, DA, uA, 1.0, 1.0), terms(phiB, mB, DB, uB, T, K)
                 (MA, bA), (MB, bB) = hand_assemble(phiA, tA), hand_assemble(phiB, tB)
+                # the expert route as well: the hand-assembled systems through solveMatrixPDE, B's matrix in any sparse format
+                fmt_ = str(rng.choice(['csr', 'csc', 'coo', 'lil', 'csc']))
+                qA = pf.solveMatrixPDE(mA, MA, bA)
+                qB = pf.solveMatrixPDE(mB, getattr(MB, 'to' + fmt_)(), bB)
+                cov['solveMatrixPDE_format:' + fmt_] = cov.get('solveMatrixPDE_format:' + fmt_, 0) + 1
+                xqA, xqB = np.asarray(qA._value, dtype=float).ravel(), np.asarray(qB._value, dtype=float).ravel()
+                if np.all(np.isfinite(xqA)) and np.all(np.isfinite(xqB)):
+                    sA_q = absmv(MA, xqA) + np.abs(bA)
+                    pos_q = sA_q[sA_q > 0]
+                    amp_q = float(np.max(sA_q)) / float(np.min(pos_q)) if pos_q.size else 1.0
+                    allowed_q = TOL + 64.0 * len(sA_q) * np.finfo(float).eps * amp_q
+                    if allowed_q <= 1e-4:
+                        e_q = max(residual_err(MB, xqB, bB, solver_output=True), residual_err(MB, K * xqA, bB, solver_output=True))
+                        maxerr['units-solveMatrixPDE'] = max(maxerr.get('units-solveMatrixPDE', 0.0), e_q)
+                        if not (e_q <= allowed_q):
+                            bad.append(('units-solveMatrixPDE', 'step %d (%s, L=%.3g T=%.3g K=%.3g): solveMatrixPDE on the system of unit system B handed over as %s does not return K times the solution of system A (normalised residual %.3g)' % (
+                                step + 1, tset, L, T, K, fmt_, e_q)))
+                            break
                 pf.solvePDE(phiA, tA)
                 pf.solvePDE(phiB, tB)
                 xA, xB = np.asarray(phiA._value, dtype=float).ravel(), np.asarray(phiB._value, dtype=float).ravel()
@@ -173,7 +191,7 @@ def run_units(case, rng, cls):
                 continue
             sA, sB = SpySolver(), SpySolver()
             pf.solvePDE(phiA, terms(phiA, mA, DA, uA, 1.0, 1.0), externalsolver=sA)
-            pf.solvePDE(phiB, terms(phiB, mB, DB, uB, T, K), externalsolver=sB)
+            pf.solvePDE(phiB, gen.vary_terms(rng, terms(phiB, mB, DB, uB, T, K)), externalsolver=sB)
             MA, bA, xA = sA.last
             MB, bB, xB = sB.last
             if not (np.all(np.isfinite(xA)) and np.all(np.isfinite(xB))):
@@ -319,11 +337,56 @@ def run_linearity(case, rng, cls):
     return bad, cov, maxerr, meta, faces, None, (lam, 1, 1), '', None
 
 
+def run_explicit_reuse(case, rng, cls):
+    """explicit steps in two unit systems with ONE right-hand-side array per system reused for every step (a precomputed source,
+    step doubling from one slope): phi_B = K * phi_A after every step"""
+    nd = NDIM[cls]
+    faces, meta = gen.gen_grid(rng, cls, nmin=1, nmax=4 if nd < 3 else 3)
+    g = Geom(cls, faces)
+    L, T, K = [float(10 ** rng.uniform(-4, 4)) for _ in range(3)]
+    gB = Geom(cls, scaled_faces(cls, faces, L))
+    mA, mB = gen.build_mesh(pf, cls, faces), gen.build_mesh(pf, cls, gB.faces)
+    for _ in range(60):
+        spec = gen.gen_bc_spec(rng, g, lams=(1.0, -1.0, 2.5))
+        if gen.bc_nonsingular(g, spec):
+            break
+    specB = gen.scale_spec(spec, L, K)
+    vals = rng.normal(0, 1, g.dims)
+    phiA = pf.CellVariable(mA, vals.copy(), gen.make_bc(pf, mA, g, spec))
+    phiB = pf.CellVariable(mB, vals * K, gen.make_bc(pf, mB, gB, specB))
+    nfull = int(np.prod(g.full_shape()))
+    rA = rng.normal(0, 1, nfull)
+    rB = rA * K / T
+    layout = str(rng.choice(['plain', 'view', 'column']))
+    if layout == 'view':
+        bufA, bufB = np.zeros(2 * nfull), np.zeros(2 * nfull)
+        bufA[:nfull], bufB[:nfull] = rA, rB
+        rA, rB = bufA[:nfull], bufB[:nfull]            # contiguous views into larger buffers
+    elif layout == 'column':
+        rA, rB = rA.reshape(-1, 1), rB.reshape(-1, 1)
+    cov, maxerr, bad = {'explicit_reuse:' + layout: 1}, {}, []
+    dt = float(10 ** rng.uniform(-3, 0))
+    with np.errstate(all='ignore'):
+        for step in range(int(rng.integers(2, 5))):
+            phiA = pf.solveExplicitPDE(phiA, dt, rA)
+            phiB = pf.solveExplicitPDE(phiB, dt * T, rB)
+            sc = float(np.max(np.abs(np.asarray(phiA._value)))) + 1e-300
+            d = float(np.max(np.abs(np.asarray(phiB._value) / K - np.asarray(phiA._value)))) / sc
+            maxerr['explicit-reuse'] = max(maxerr.get('explicit-reuse', 0.0), d)
+            cov['explicit_reuse_steps'] = cov.get('explicit_reuse_steps', 0) + 1
+            if not (d <= 1e-11):
+                bad.append(('explicit-reuse', 'explicit step %d with a re-used right-hand-side array (%s, L=%.3g T=%.3g K=%.3g): phi_B/K differs from phi_A by relative %.3g' % (step + 1, layout, L, T, K, d)))
+                break
+    return bad, cov, maxerr, meta, faces, spec, (L, T, K), '', None
+
+
 def run_case(case):
     rng = gen.rng_for(*case['seed'])
     cls = case['cls']
     kind = case['kind']
-    if kind == 'units':
+    if kind == 'explicit-reuse':
+        bad, cov, maxerr, meta, faces, spec, LTK, lim, note = run_explicit_reuse(case, rng, cls)
+    elif kind == 'units':
         bad, cov, maxerr, meta, faces, spec, LTK, lim, note = run_units(case, rng, cls)
     elif kind == 'tvd-homogeneity':
         bad, cov, maxerr, meta, faces, spec, LTK, lim, note = run_tvd_homogeneity(case, rng, cls)
@@ -367,6 +430,9 @@ def plan(tier, seed):
         for rep in range(6 if tier == 'quick' else 120):
             cases.append({'cls': cls, 'kind': 'tvd-homogeneity', 'seed': [seed, 17, ci, i]})
             i += 1
+        for rep in range(6 if tier == 'quick' else 100):
+            cases.append({'cls': cls, 'kind': 'explicit-reuse', 'seed': [seed, 17, ci, i]})
+            i += 1
         step = 9 if NDIM[cls] == 3 else 27
         for j in range(0, len(cases), step):
             chunks.append(cases[j:j + step])
@@ -383,7 +449,7 @@ def floors(agg, tier):
     for t in TSETS:
         if agg['cov'].get('tset:' + t, 0) < 20:
             out.append('tset:%s < 20' % t)
-    for k, need in (('unit_steps', 300), ('unit_direct', 100), ('small_amplitude', 20), ('pow2_scales', 30), ('wide_length_scale', 60), ('unit_default_path_steps', 150), ('integer_coefficient_steps', 100), ('length_scale_below_1e-7', 8), ('tvd_homogeneity', 40), ('tvd_homogeneity_below_1e-15', 5)):
+    for k, need in (('unit_steps', 300), ('unit_direct', 100), ('small_amplitude', 20), ('pow2_scales', 30), ('wide_length_scale', 60), ('unit_default_path_steps', 150), ('explicit_reuse_steps', 100), ('solveMatrixPDE_format:csc', 30), ('integer_coefficient_steps', 100), ('length_scale_below_1e-7', 8), ('tvd_homogeneity', 40), ('tvd_homogeneity_below_1e-15', 5)):
         if agg['cov'].get(k, 0) < need:
             out.append('%s < %d' % (k, need))
     return out
